@@ -46,7 +46,7 @@ CHECKS = {
     'C03': {
         'technique': 'runtime monitoring: exactly-once dispose ledger over every retired object of the HP and DHP workloads, checked after destruction of the singleton; eager-scan cases; LeakSanitizer',
         'level_text': 'Every object retired in the C01/C02 workloads (10^7 per quick run) is followed in a side-table ledger: the disposer may run at most once (checked inside the disposer), must have run exactly once after '
-                      '~HP/~DHP, never for a non-retired object; deterministic eager clause: scan() with no guard on an object frees it, with a guard keeps it until released (n below/at/above array capacity and block size)',
+                      '~HP/~DHP, never for a non-retired object; deterministic eager clause: scan() with no guard on an object frees it, with a guard keeps it until released (n below/at/above array capacity and block size; for DHP also four fifths / all but one / all of a full 256-entry block guarded, which makes scan() compact and extend the array); DHP record re-use clause: a thread with a three-block retired array detaches while another thread guards 100 of its objects, re-attaches (same record) and fills the array again. Found and fixed: F1, F20, F21, F22',
         'level_note': SMR_NOTE,
     },
     'C04': {
@@ -72,7 +72,7 @@ CHECKS = {
     },
     'C07': {
         'technique': 'runtime monitoring: recorded concurrent histories checked by a WGL linearizability checker against a bounded FIFO model (capacity read from capacity()); ASan/UBSan; TSan payload monitor',
-        'level_text': 'Round/segment histories (2-4 threads, prefilled to near-full/near-empty, positions wrap the ring hundreds of times) of container::VyukovMPMCCycleQueue (dynamic/static buffers, capacities 2,4,8, '
+        'level_text': 'Round/segment histories (2-4 threads, prefilled to near-full/near-empty, positions wrap the ring hundreds of times) of container::VyukovMPMCCycleQueue (dynamic/static buffers, capacities 2,4,8, resetting opt::value_cleaner and values with a wiping destructor so that a cleaner run on a re-used cell corrupts the element, '
                       'every enqueue/dequeue overload), intrusive::VyukovMPMCCycleQueue and the single-consumer VyukovMPSCCycleQueue (front(), front()+pop_front() by the only consumer) are linearizable to a FIFO of the '
                       'reported capacity: enqueue fails only in a full state, dequeue only in the empty state; held on the executions observed',
         'level_note': LIN_NOTE,
@@ -154,7 +154,7 @@ CHECKS = {
     },
     'C19': {
         'technique': 'runtime monitoring: an iterating thread records every yielded element (touching the current element repeatedly) while updaters run; completeness / multiplicity / order oracle over keys surely present for the whole pass; per-key WGL incl. erase_at as "remove exactly this item"; destroyed-item poison check and ASan',
-        'level_text': 'Passes over IterableList (HP/DHP), MichaelHashSet and SplitListSet over IterableList, FeldmanHashSet (HP/DHP/RCU, forward and reverse, keys sharing a 12-bit prefix so array nodes split under the iterator): the current element never carries the destructor poison '
+        'level_text': 'Passes over IterableList (HP/DHP), MichaelHashSet and SplitListSet over IterableList, FeldmanHashSet (HP/DHP/RCU, forward and reverse, keys sharing a 12-bit prefix so array nodes split under the iterator; Feldman sets re-created every 3 passes because they never shrink; hot-spot IterableList variants with 3-4 keys, 3 updaters and erase_at on every second element): the current element never carries the destructor poison '
                       '(never freed under ASan); every key present throughout and never removed/replaced is yielded exactly once (Iterable-based) / at least once (Feldman), in increasing order for IterableList; every yielded item was inserted for its key; '
                       'erase_at(iterator) histories are linearizable with erase_at meaning "remove exactly this item or return false if it is gone". Found and fixed: F16',
         'level_note': LIN_NOTE + '; the order of transient keys is not constrained (IterableList may yield e.g. 5,3 when 5 is erased and 3 inserted into a vacated later node during the pass); Feldman erase_at is not exposed by the container form and is not driven',
